@@ -228,6 +228,20 @@ class C15(Harness):
                     col.append(pd.Series(v))
                 mixed[names[j]] = col
             out["mixed_dtype"] = {"counts": counts, "3d": canon("3d", dp.from_nested_to_3d_numpy(mixed))[0], "check_X": canon("3d", vp.check_X(mixed, coerce_to_numpy=True))[0]}
+        if ni >= 2:
+            # a multi-index panel that is a row subset (by instance) of a larger one: pandas keeps the unused labels in
+            # index.levels; the conversion goes by the rows that are there
+            big = dp.from_3d_numpy_to_multi_index(np.concatenate([arr3(), arr3()], axis=0), instance_index="instance", time_index="timepoints", column_names=names)
+            sub = big.loc[list(range(ni))]
+            out["mi_subset"] = {"3d": canon("3d", dp.from_multi_index_to_3d_numpy(sub, instance_index="instance", time_index="timepoints"))[0], "n_levels": int(len(sub.index.levels[0]))}
+        # a nested frame whose instances are keyed by a two-level row index (subject, trial) is still nested
+        n_h = nested()
+        n_h.index = pd.MultiIndex.from_arrays([[i // 2 for i in range(ni)], [i % 2 for i in range(ni)]], names=["subject", "trial"])
+        out["pred"]["hier_rows"] = [bool(dp.is_nested_dataframe(n_h))] + [bool(v) for v in dp.are_columns_nested(n_h)]
+        try:
+            out["hier_3d"] = canon("3d", dp.from_nested_to_3d_numpy(n_h))[0]
+        except ValueError as e:
+            out["hier_3d"] = {"error": str(e)[:60]}
         if nc == 1:
             # table -> nested with the caller's own instance labels (a fold of a larger panel, ids ...)
             labs = [10 - 3 * i for i in range(ni)]
@@ -269,6 +283,13 @@ class C15(Harness):
         P.check("nestedness-predicates", p["nested"] and p["nested_np"] and not p["flat"] and not p["array"] and p["cols"] == [True] * nc and p["mixed"] == [True] * nc + [False])
         P.check("nestedness-predicates", p["scalar_first"] == [True, False, True] and p["scalar_later"] == [True, True], {"scalar_first": p["scalar_first"], "scalar_later": p["scalar_later"]})
         P.check("nestedness-predicates", p["primitives"] == [False, False, False], {"primitives": p["primitives"]})
+        P.check("nestedness-predicates", p["hier_rows"] == [True] * (1 + nc), {"hierarchical_row_index": p["hier_rows"]})
+        if isinstance(out["hier_3d"], dict):
+            P.check("cell-preserved", False, {"path": "nested(two-level row index)->3d", "error": out["hier_3d"]["error"]})
+        else:
+            same(out["hier_3d"], "cell-preserved", None, {"path": "nested(two-level row index)->3d"})
+        if "mi_subset" in out:
+            same(out["mi_subset"]["3d"], "cell-preserved", None, {"path": "mi(row subset of a larger panel)->3d"})
         for k, vals in out["check_X"].items():
             same(vals, "check_X-coercions", None, {"coercion": k})
         for k, cols in out["check_X_cols"].items():
